@@ -405,7 +405,13 @@ func run(t *testing.T, pl plan) vk.Result {
 					wantCode = codes.OK
 					bk.success()
 				} else {
+					// The client turns "OK without a response" into an
+					// INTERNAL failure of this attempt; whether a malformed
+					// pushback on it costs a token is a matter of reading.
 					wantCode = codes.Internal
+					if _, ok := validPushback(sc.Pushback); len(sc.Pushback) > 0 && !ok && !p.DisableRetry {
+						bk.maybeFail()
+					}
 				}
 			default: // trailers-only failure: the only retry candidate
 				wantCode = codes.Code(sc.Code)
